@@ -390,6 +390,37 @@ fn schema_verdict_case(case: &mut Case) -> CaseResult {
     Ok(())
 }
 
+/// In-process: resolving the imports of the same root three times gives the same definitions in the same
+/// order (every std HashMap instance is seeded differently even within one process, so hash-order
+/// dependence shows without starting fresh processes).
+fn import_order_case(case: &mut Case) -> CaseResult {
+    use crate::props::c13;
+    let (specs, paths) = c13::random_specs(case);
+    let mut multi_cycle = 0;
+    for root in 0..specs.len() {
+        let a = c13::resolved_order(&specs, &paths, root)?;
+        for _ in 0..2 {
+            let b = c13::resolved_order(&specs, &paths, root)?;
+            case.evals(1);
+            if a != b {
+                return Err(Failure::new(
+                    "import-order-nondeterministic",
+                    format!("resolving the imports of file {root} twice gives different results: {a:?} vs {b:?}"),
+                    json!({"files": c13::files_json(&specs, &paths), "root": root}),
+                ));
+            }
+        }
+        if a.as_ref().map(|v| v.len() >= 3).unwrap_or(false) {
+            multi_cycle += 1;
+        }
+    }
+    if multi_cycle > 0 {
+        case.nontrivial(&specs);
+    }
+    case.sample(|| json!({"files": c13::files_json(&specs, &paths)}));
+    Ok(())
+}
+
 pub fn run(env: &Env) -> i32 {
     let mut rep = Report::new(
         env,
@@ -406,6 +437,8 @@ pub fn run(env: &Env) -> i32 {
     let _ = std::fs::remove_dir_all(&base);
     rep.shrink_iters = None;
     rep.note("campaign schema-verdict-order (in-process): valid schemas (25%) or schemas with one injected type-system fault (75%, the 25 C05 operators), split into definitions and extensions, three random permutations each (extension order per name kept) redistributed over 1-3 files: accept/reject must not change");
+    rep.note("campaign import-order (in-process): random import graphs over 2-8 files (cycles, diamonds, repeated lines, six path spellings, equal fragment names in different files), every file as root, resolved three times: same definitions in the same order. Non-trivial: >= 3 imported definitions");
+    rep.campaign("import-order", env.cases(20_000, 300_000), (20, 400), import_order_case);
     rep.campaign("schema-verdict-order", env.cases(30_000, 400_000), (200, 1500), schema_verdict_case);
     rep.finish()
 }
